@@ -11,7 +11,7 @@ FINISH = dict(rule='behaviours of H5Store.tla (all option families x add paramet
 def run(r):
     thorough = r.tier == 'thorough'
     drv = H5Driver(level='light', tag='C11')
-    r.model_check('H5StoreMC', 'H5Store_c11.cfg' if thorough else 'H5Store_c11q.cfg')
+    r.model_check('H5StoreMC', 'H5Store_c11t.cfg' if thorough else 'H5Store_c11q.cfg')
     r.exhaustive = True
     n = 3000 if thorough else 250
     s = tlc.simulate('H5StoreMC', 'H5Store_sim.cfg', 'C11/sim', num=n, depth=9, seed=r.seed + 11)
